@@ -332,12 +332,28 @@ class Facts:
         return (f.get("cls", f.get("ns", "")), self.spec(f.get("tid")) if "tid" in f else "", f["name"])
 
     def fdisp(self, fid):
+        c = self.__dict__.setdefault("_fdisp", {})
+        if fid in c:
+            return c[fid]
         f = self.fn(fid)
         if f is None:
             return "?"
         k = self.fkey(fid)
         s = k[0] + ("<" + k[1] + ">" if k[1] else "") + "::" + k[2]
+        c[fid] = s
         return s
+
+    def representatives(self, fids, per_group=3):
+        """Sample instantiations per (pattern, STRATEGY, specialisation): rules that only depend on the statements of a
+        pattern (who-may-write) need not visit hundreds of identical instantiations."""
+        groups = {}
+        for fid in fids:
+            b = self.bodies[fid]
+            key = (b.get("pat"), self.const(b.get("tid"), "STRATEGY"), self.spec(b.get("tid")) if "tid" in b else "")
+            g = groups.setdefault(key, [])
+            if len(g) < per_group:
+                g.append(fid)
+        return [f for g in groups.values() for f in g]
 
     def floc(self, fid):
         f = self.fn(fid)
